@@ -162,6 +162,11 @@ mut("c14-label-cache-shared-between-instances", UT, "    @wraps(func)\n    def c
 mut("c14-class-name-conversion-not-idempotent", MB, "        return prepare_label(name, convert_unicode=self.convert_unicode, to_snake_case=False)", "        name = prepare_label(name, convert_unicode=self.convert_unicode, to_snake_case=False)\n        return name + 'X' if len(name) < 6 else name", ["C14"])
 mut("c14-generator-registers-datetime-globally", MP, "        kwargs['post_init_converters'] = False\n        super().__init__(model, **kwargs)", "        kwargs['post_init_converters'] = False\n        from ..dynamic_typing import register_datetime_classes, registry, IsoDateString\n        if IsoDateString not in registry:\n            register_datetime_classes()\n        super().__init__(model, **kwargs)", ["C14"])
 mut("c14-context-never-reset", MM, "        def __exit__(self, exc_type, exc_val, exc_tb):\n            self.data.context = self._old", "        def __exit__(self, exc_type, exc_val, exc_tb):\n            pass", ["C14"])
+# ---- C15 ----------------------------------------------------------------------------------------------
+mut("c15-context-plain-global", MM, "        class _Data(threading.local):", "        class _Data:", ["C15"])
+mut("c15-context-only-in-importing-thread", MM, "        class _Data(threading.local):\n            # Class attribute is the default for threads other than the one that imported this module\n            context: ContextInjectionType = None\n\n        data = _Data()",
+    "        data = threading.local()\n        data.context: ContextInjectionType = None", ["C15"])
+mut("c15-shared-type-style-mutated", MB, "        resolved_types_style = copy.deepcopy(self.default_types_style)", "        resolved_types_style = self.default_types_style", ["C15"])
 # ---- neutral (behaviour preserving) -------------------------------------------------------------------
 mut("neutral-rename-local", G, "        fields_sets = [self._convert(data) for data in data_variants]\n        fields = self.merge_field_sets(fields_sets)",
     "        variants = [self._convert(data) for data in data_variants]\n        fields = self.merge_field_sets(variants)", ["C01", "C02", "C05"], kind="neutral")
